@@ -8,8 +8,8 @@ Require Import TT.Proofs.C07TypeParseProofs TT.Proofs.C07HarvestProofs TT.Proofs
 Import ListNotations.
 
 (* For every iteration order of every hash collection (root set, dependency sets, used set, field name
-   sets, struct map, event name sets) and every project of the documented feature set outside the three
-   remaining classes C07-5, C07-6, C07-7 (comma splitting, the one-argument Result alias and the event payload
+   sets, struct map, event name sets) and every project of the documented feature set outside the four
+   remaining classes C07-5, C07-6, C07-7, C07-8 (comma splitting, the one-argument Result alias and the event payload
    dependencies were repaired): the list of types declared in types.ts has no duplicate, contains exactly the
    types of the specification (least set closed under field types from parameters, success arms of
    returns, channel messages and event payloads, restricted to project-defined serde types), and is a
@@ -17,6 +17,7 @@ Import ListNotations.
 Theorem C07_exact : forall (o : orders) (p : project) (decl : list str),
   ord_ok o -> in_domain p = true ->
   kf_c07_field_result p = false -> kf_c07_odd_name p = false -> kf_c07_inline_mod p = false ->
+  kf_c07_payload_expr p = false ->
   C07Reach.declared o p = Some decl ->
   NoDup decl /\ (forall x, In x decl <-> SpecReach p x) /\ Permutation decl (reachable_spec p).
 Proof. exact declared_exact_full. Qed.
@@ -67,7 +68,8 @@ Proof. exact (nested_exact str str_dec). Qed.
 
 (* outside the syntactic classes the decidable agreement premise holds *)
 Theorem C07_agree_from_classes : forall p, in_domain p = true ->
-  kf_c07_field_result p = false -> kf_c07_odd_name p = false -> kf_c07_inline_mod p = false -> agree_b p = true.
+  kf_c07_field_result p = false -> kf_c07_odd_name p = false -> kf_c07_inline_mod p = false ->
+  kf_c07_payload_expr p = false -> agree_b p = true.
 Proof. exact agree_from_classes. Qed.
 
 (* type level: on the printed form of a type of the documented language, for names that pass the
@@ -113,6 +115,8 @@ Theorem C07_field_result_refuted : kf_c07_field_result w_field_result = true /\ 
 Proof. exact field_result_refuted. Qed.
 Theorem C07_inline_mod_refuted : kf_c07_inline_mod w_inline_mod = true /\ refutes w_inline_mod.
 Proof. exact inline_mod_refuted. Qed.
+Theorem C07_payload_expr_refuted : kf_c07_payload_expr w_payload_expr = true /\ refutes w_payload_expr.
+Proof. exact payload_expr_refuted. Qed.
 Theorem C07_odd_name_refuted : kf_c07_odd_name w_odd_name = true /\ refutes w_odd_name.
 Proof. exact odd_name_refuted. Qed.
 
@@ -121,10 +125,10 @@ Proof. exact odd_name_refuted. Qed.
 Example C07_ex_premises :
   in_domain sample = true /\ agree_b sample = true /\
   kf_c07_field_result sample = false /\ kf_c07_odd_name sample = false /\
-  kf_c07_inline_mod sample = false /\
+  kf_c07_inline_mod sample = false /\ kf_c07_payload_expr sample = false /\
   ord_ok o_default /\
   exists d, C07Reach.declared o_default sample = Some d /\ List.length d = 8.
-Proof. do 5 (split; [vm_compute; reflexivity|]).
+Proof. do 6 (split; [vm_compute; reflexivity|]).
   split; [exact ord_ok_default|]. eexists. split; [vm_compute; reflexivity|]. reflexivity. Qed.
 Example C07_ex_worklist : work str_dec (fun n => if str_eqb n (L "A") then [L "B"; L "X"] else if str_eqb n (L "B") then [L "A"] else [])
     (fun n => str_eqb n (L "A") || str_eqb n (L "B")) (fun _ => true) 9 [L "A"; L "Z"] [] = Some [L "B"; L "A"].
@@ -152,4 +156,5 @@ Print Assumptions C07_result_alias_repaired.
 Print Assumptions C07_event_nested_repaired.
 Print Assumptions C07_field_result_refuted.
 Print Assumptions C07_inline_mod_refuted.
+Print Assumptions C07_payload_expr_refuted.
 Print Assumptions C07_odd_name_refuted.
